@@ -118,6 +118,19 @@ def handleFlow : List String → String
       | .ok (b, 1) => "ok f=" ++ encBuf b
       | _ => "oob"
     | .oob => "oob"
+  | ["wflow", name, t, s] =>
+    -- a whole generated C wrapper with a user `final:` release, groups in the regenerated order
+    let r : Option (Entry × Lib) :=
+      match name with
+      | "string_ptr_result_final" => some (Gen.c_string_ptr_result_buf, .strResult (decBuf s))
+      | "char_ptr_result_final" => some (Gen.c_char_ptr_result_buf, .charResult (decPtr s))
+      | _ => none
+    match r with
+    | some (e, l) =>
+      match flowWith Gen.wrapOrder e [.userRelease] false false (decBuf t) l with
+      | .ok (o, 1) => showFlow (.ok o)
+      | _ => "oob"
+    | none => "bad-op"
   | ["vflow", name, t, size, len, outs] =>
     let v : List (List Nat) := if outs == "~" then [] else (outs.splitOn ";").map decBuf
     let r : Option (Entry × Lib) :=
